@@ -254,13 +254,13 @@ func (g *kkGen) ids4() []uint64 {
 }
 
 var kkRecFamilies = [][][2]uint64{
-	{{1, 256}, {257, 0}, {1, 0x0203}, {0x0102, 3}},     // minimal-length encodings would collide
-	{{1, 11}, {11, 1}, {0, 1}, {1, 0}},                 // decimal concatenation, swapped
+	{{1, 256}, {257, 0}, {1, 0x0203}, {0x0102, 3}}, // minimal-length encodings would collide
+	{{1, 11}, {11, 1}, {0, 1}, {1, 0}},             // decimal concatenation, swapped
 	{{255, 256}, {256, 255}, {1 << 32, 0}, {0, 1 << 32}},
 	{{^uint64(0), 0}, {0, ^uint64(0)}, {^uint64(0), ^uint64(0)}, {0, 0}},
 	{{1<<32 - 1, 1 << 32}, {1 << 32, 1<<32 - 1}, {1 << 63, 1}, {1, 1 << 63}},
 	{{1, 2 << 56}, {258, 0}, {0, 1<<56 | 2}, {1 << 8, 2}}, // shifted boundary between id and height
-	{{1 << 32, 1}, {0, 1}, {1, 1 << 32}, {1, 0}},         // 4-byte truncation of either component
+	{{1 << 32, 1}, {0, 1}, {1, 1 << 32}, {1, 0}},          // 4-byte truncation of either component
 	{{0, 255}, {0, 256}, {0, 1<<32 - 1}, {0, 1 << 32}},
 	{{^uint64(0), 1 << 63}, {^uint64(0), ^uint64(0)}, {1 << 63, ^uint64(0)}, {1 << 63, 1 << 63}},
 }
